@@ -16,22 +16,23 @@ CLAIMED = {
               'flag state (FLAG-MODEL).',
               'the LZMA symbol codec mirror (CODEC-MIRROR not built), match finder/window invariants, range coder carry, '
               'optimal parser bookkeeping, 31-bit renormalisation: all depend on run-time values.'),
-    'C02': _c('static: typestate path rule (edge dominance) on the container writers',
-              'BLOCK-TYPESTATE: the XZ block / LZIP member closer is only reachable where a unit is provably open (opener call or '
-              'open edge of a test on the per-unit flag/counter), for every call site.',
-              'writer/reader table agreement (TABLE-INVERSE/LAYOUT-SEQ not built), CRC values, index arithmetic, LZIP dictionary '
-              'byte rounding.'),
+    'C02': _c('static: typestate path rule (edge dominance) + writer/reader table extraction from MIR switch arms',
+              'BLOCK-TYPESTATE: the XZ block / LZIP member closer is only reachable where a unit is provably open; TABLE-INVERSE: '
+              'filter ids, check ids, check sizes, filter constructors per variant, delta property and chain order agree '
+              'between XZ writer and reader (31 rows).',
+              'field-order/width agreement of headers and trailers (LAYOUT-SEQ not built), CRC values, index arithmetic, LZIP '
+              'dictionary byte rounding.'),
     'C03': _c('static: ordering (reachability) rule + finite flag model',
               'UNPADDED-ORDER: the index unpadded size = counter - snapshot + check and the snapshot precedes every sink write of '
               'the block; FLAG-MODEL: first chunk / every chunk after a pending reset carries the dictionary reset, no '
               'control byte outside the reader-accepted classes.',
-              'acceptance by the reference implementation of everything else (needs the reference), format constants vs. the '
-              'specification (SPEC-CONST not built).'),
+              'acceptance by the reference implementation of everything else (needs the reference); SPEC-CONST compares the '
+              'format constants (magics, filter/check ids and sizes, LZMA2 limits, props formula) with the published specs.'),
     'C04': _c('static: error-propagation taint over Err edges (container readers)',
               'ERR-SWALLOW-DEC: from the Err edge of every branch on a crate-error Result in the XZ/LZIP/LZMA readers the payload '
               'reaches the Err return or an error field on every path (exceptions are checked path conditions).',
-              'that CRC/SHA detect a given corruption, that every parsed integrity field is compared (GUARD-COMPARE not built), '
-              'LZMA-level structural errors.'),
+              'that CRC/SHA detect a given corruption, LZMA-level structural errors. Also decided: GUARD-COMPARE (every parsed '
+              'integrity field / stored CRC decides an Err) and CHECKSUM-FEED (every byte handed out was fed to the running check).'),
     'C05': _c('static: error-propagation taint + I/O count classification at every Read::read / Write::write site',
               'ERR-SWALLOW (whole crate) and IO-COUNT (W1 dropped write count, W2 transforming writer returning a partial count, '
               'R1 read count compared for equality with a required length).',
